@@ -154,6 +154,22 @@ def run_unit(p, tier, seed):
         r['transitions'] += 64
         if img != set(range(64)):
             r.v(PROPERTY, 'BitwiseFPEPRP', 'bijection', 'collision', {'n': 6}, 'permutation of 0..63', sorted(img))
+        # several widths under ONE key in ONE process, through the PRP wrapper: every instance is a permutation of its own domain
+        shared = Bitset(g.getrandbits(128) | (1 << 127), 128)
+        for n in (4, 6, 7, 9, 10, 6, 4):
+            prp = P(key_bit_length=128, message_bit_length=n)
+            outs = [prp(shared, Bitset(x, n)) for x in range(1 << n)]
+            r['evaluations'] += 1 << n
+            r['transitions'] += 1 << n
+            r['states'] += 1
+            r.count('fpeprp-shared-key-widths')
+            if any(len(y) != n for y in outs):
+                r.v(PROPERTY, 'BitwiseFPEPRP', 'length', 'shared-key', {'n': n, 'shared_key': True}, n, sorted({len(y) for y in outs}))
+            if {int(y) for y in outs} != set(range(1 << n)):
+                r.v(PROPERTY, 'BitwiseFPEPRP', 'bijection', 'shared-key', {'n': n, 'shared_key': True}, 'permutation of 0..2^n-1', 'not a permutation')
+            ffx = BitwiseFFX()
+            if any(int(y) != int(ffx.encrypt(bytes(shared), Bitset(x, n))) for x, y in enumerate(outs)):
+                r.v(PROPERTY, 'BitwiseFPEPRP', 'value', 'shared-key-differs-from-ffx', {'n': n, 'shared_key': True}, 'BitwiseFFX.encrypt', 'differs')
         r.sample({'prim': 'BitwiseFPEPRP', 'contracts': '(declared, actual) in {n-1,n,n+1}^2'})
     elif kind == 'lr2':
         P = get_prp_implementation('HmacLubyRackoffPRP')
